@@ -486,6 +486,15 @@ class AModel(Model):
             # pox.mkdir returns the absolute path of what it created
             rv = p if root is not None else ('call', ('lib', 'os.path.abspath'), (p,), ())
             return self.prim(st, 'MKDIR', (p,), line, IO_TOKENS, val=rv)
+        if full in ('glob.glob', 'glob.iglob') and args:
+            # glob(os.path.join(root, pattern)): a listing of root by pattern (the root itself is part of the glob expression: see A-GLOBROOT)
+            a0 = args[0]
+            root, pat = a0, None
+            if a0[0] == 'call' and a0[1] == ('lib', 'os.path.join') and len(a0[2]) >= 2:
+                root, pat = a0[2][0], a0[2][-1]
+            v = ('ev', 'list', self.newid())
+            st.emit('LIST', (root,) + ((pat,) if pat is not None else ()), line, val=v, extra={'via': 'glob'})
+            return [R(st, v)]
         if full == 'pox.walk':
             pat = self.kwval(kws, 'patterns')
             v = ('ev', 'list', self.newid())
